@@ -191,6 +191,10 @@ class Ctx:
         shutil.rmtree(work, ignore_errors=True)
         if p.returncode != 0:
             out.append((-1, 'CRASH', f'exit={p.returncode} stderr={p.stderr[-400:]}'))
+        unknown = [r for _i, _c, r in out if r.startswith('err:UnknownCommand') or r.startswith('err:BadCmd')]
+        if unknown:
+            # a scenario the driver cannot execute proves nothing: never let it confirm a candidate
+            raise RuntimeError(f'replay driver cannot execute the scenario: {unknown[:2]}')
         return spath, out
 
     # ---------------- finish
